@@ -253,7 +253,8 @@ fn decode_multi_stateless(stream: &[u8], cuts: &[usize], n: usize) -> Result<Vec
 }
 
 fn run_c15(cli: &Cli) -> (Value, Vec<Violation>) {
-    let thorough = cli.thorough();
+    let thorough = cli.level() >= 1;
+    let deep = cli.level() >= 2;
     let mut viol: Vec<Violation> = vec![];
     let mut add = |key: &str, desc: String, replay: Value| {
         if viol.iter().filter(|v| v.key == key).count() < 3 {
@@ -324,6 +325,15 @@ fn run_c15(cli: &Cli) -> (Value, Vec<Violation>) {
                 }
             }
         }
+        if deep && s.len() <= 22 {
+            for i in 1..s.len() {
+                for j in (i + 1)..s.len() {
+                    for k in (j + 1)..s.len() {
+                        cutsets.push(vec![i, j, k]);
+                    }
+                }
+            }
+        }
         for cuts in &cutsets {
             n_splits += 1;
             match decode_all(s, cuts) {
@@ -360,10 +370,9 @@ fn run_c15(cli: &Cli) -> (Value, Vec<Violation>) {
     }
     // (c) all short byte strings over the framing alphabet
     let alpha: &[u8] = b"*$+:-12a\r\n";
-    let maxlen = if thorough { 7 } else { 5 };
+    let maxlen = if deep { 8 } else if thorough { 7 } else { 5 };
     let mut n_raw = 0usize;
     let mut verdicts: BTreeMap<&'static str, usize> = BTreeMap::new();
-    let mut s: Vec<u8> = vec![];
     fn rec(s: &mut Vec<u8>, alpha: &[u8], maxlen: usize, f: &mut dyn FnMut(&[u8])) {
         f(s);
         if s.len() == maxlen {
@@ -376,50 +385,79 @@ fn run_c15(cli: &Cli) -> (Value, Vec<Violation>) {
         }
     }
     let mut raw_viol: Vec<(String, String, Vec<u8>)> = vec![];
-    rec(&mut s, alpha, maxlen, &mut |inp: &[u8]| {
-        n_raw += 1;
-        let r = ref_parse(inp);
-        let mut buf = BytesMut::from(inp);
-        let got = RespVec::decode(&mut buf, ());
-        let consumed = inp.len() - buf.len();
-        match (&r, got) {
-            (Ref::Valid(v, n), Ok(Some(g))) => {
-                *verdicts.entry("valid").or_default() += 1;
-                if &g != v || consumed != *n {
-                    raw_viol.push(("raw:valid-input-decoded-differently".into(), format!("{:?}: expected {:?} ({} bytes) got {:?} ({} bytes)", inp, v, n, g, consumed), inp.to_vec()));
+    // one worker per first byte (plus the empty string); results merged in alphabet order so that
+    // the report does not depend on thread timing
+    type RawOut = (usize, BTreeMap<&'static str, usize>, Vec<(String, String, Vec<u8>)>);
+    fn raw_sweep(start: Vec<u8>, alpha: &[u8], maxlen: usize) -> RawOut {
+        let mut n_raw = 0usize;
+        let mut verdicts: BTreeMap<&'static str, usize> = BTreeMap::new();
+        let mut raw_viol: Vec<(String, String, Vec<u8>)> = vec![];
+        let mut s = start;
+        rec(&mut s, alpha, maxlen, &mut |inp: &[u8]| {
+            n_raw += 1;
+            let r = ref_parse(inp);
+            let mut buf = BytesMut::from(inp);
+            let got = RespVec::decode(&mut buf, ());
+            let consumed = inp.len() - buf.len();
+            let mut push = |k: String, d: String| {
+                if raw_viol.len() < 200 {
+                    raw_viol.push((k, d, inp.to_vec()));
+                }
+            };
+            match (&r, got) {
+                (Ref::Valid(v, n), Ok(Some(g))) => {
+                    *verdicts.entry("valid").or_default() += 1;
+                    if &g != v || consumed != *n {
+                        push("raw:valid-input-decoded-differently".into(), format!("{:?}: expected {:?} ({} bytes) got {:?} ({} bytes)", inp, v, n, g, consumed));
+                    }
+                }
+                (Ref::Valid(v, _), Ok(None)) => {
+                    *verdicts.entry("valid").or_default() += 1;
+                    push("raw:valid-input-not-decoded".into(), format!("{:?}: expected {:?}, decoder wants more data", inp, v));
+                }
+                (Ref::Valid(v, _), Err(_)) => {
+                    *verdicts.entry("valid").or_default() += 1;
+                    push("raw:valid-input-rejected".into(), format!("{:?}: expected {:?}, decoder reports protocol error", inp, v));
+                }
+                (Ref::Incomplete, Ok(None)) => {
+                    *verdicts.entry("incomplete").or_default() += 1;
+                    if consumed != 0 {
+                        push("raw:incomplete-input-consumed".into(), format!("{:?}: consumed {} bytes of an incomplete packet", inp, consumed));
+                    }
+                }
+                (Ref::Incomplete, Ok(Some(g))) => {
+                    *verdicts.entry("incomplete").or_default() += 1;
+                    push("raw:incomplete-input-yields-value".into(), format!("{:?}: incomplete packet decoded as {:?}", inp, g));
+                }
+                (Ref::Incomplete, Err(_)) => {
+                    *verdicts.entry("incomplete").or_default() += 1;
+                    push("raw:incomplete-input-rejected".into(), format!("{:?}: a prefix of a valid packet is reported as protocol error", inp));
+                }
+                (Ref::Invalid(why), Ok(Some(g))) => {
+                    *verdicts.entry("invalid").or_default() += 1;
+                    push(format!("raw:non-resp-accepted:{}", why), format!("{:?} is not RESP ({}) but decodes as {:?} consuming {} bytes", inp, why, g, consumed));
+                }
+                (Ref::Invalid(_), _) => {
+                    *verdicts.entry("invalid").or_default() += 1;
                 }
             }
-            (Ref::Valid(v, _), Ok(None)) => {
-                *verdicts.entry("valid").or_default() += 1;
-                raw_viol.push(("raw:valid-input-not-decoded".into(), format!("{:?}: expected {:?}, decoder wants more data", inp, v), inp.to_vec()));
-            }
-            (Ref::Valid(v, _), Err(_)) => {
-                *verdicts.entry("valid").or_default() += 1;
-                raw_viol.push(("raw:valid-input-rejected".into(), format!("{:?}: expected {:?}, decoder reports protocol error", inp, v), inp.to_vec()));
-            }
-            (Ref::Incomplete, Ok(None)) => {
-                *verdicts.entry("incomplete").or_default() += 1;
-                if consumed != 0 {
-                    raw_viol.push(("raw:incomplete-input-consumed".into(), format!("{:?}: consumed {} bytes of an incomplete packet", inp, consumed), inp.to_vec()));
-                }
-            }
-            (Ref::Incomplete, Ok(Some(g))) => {
-                *verdicts.entry("incomplete").or_default() += 1;
-                raw_viol.push(("raw:incomplete-input-yields-value".into(), format!("{:?}: incomplete packet decoded as {:?}", inp, g), inp.to_vec()));
-            }
-            (Ref::Incomplete, Err(_)) => {
-                *verdicts.entry("incomplete").or_default() += 1;
-                raw_viol.push(("raw:incomplete-input-rejected".into(), format!("{:?}: a prefix of a valid packet is reported as protocol error", inp), inp.to_vec()));
-            }
-            (Ref::Invalid(why), Ok(Some(g))) => {
-                *verdicts.entry("invalid").or_default() += 1;
-                raw_viol.push((format!("raw:non-resp-accepted:{}", why), format!("{:?} is not RESP ({}) but decodes as {:?} consuming {} bytes", inp, why, g, consumed), inp.to_vec()));
-            }
-            (Ref::Invalid(_), _) => {
-                *verdicts.entry("invalid").or_default() += 1;
-            }
+        });
+        (n_raw, verdicts, raw_viol)
+    }
+    {
+        let mut parts: Vec<RawOut> = vec![raw_sweep(vec![], alpha, 0)];
+        let hs: Vec<_> = alpha.iter().map(|a| { let a = *a; std::thread::spawn(move || raw_sweep(vec![a], b"*$+:-12a\r\n", maxlen)) }).collect();
+        for h in hs {
+            parts.push(h.join().expect("raw sweep worker"));
         }
-    });
+        for (n, v, viols) in parts {
+            n_raw += n;
+            for (k, c) in v {
+                *verdicts.entry(k).or_default() += c;
+            }
+            raw_viol.extend(viols);
+        }
+    }
     // "start from non-initial states": all suffixes of length <= 3 after prefixes that put the
     // decoder in the middle of a bulk payload / an array
     let prefixes: Vec<&[u8]> = vec![b"$1\r\na", b"$0\r\n", b"$2\r\n\r\n", b"*1\r\n", b"*2\r\n+\r\n", b"*1\r\n$1\r\na", b"$-1", b"*-1"];
@@ -461,7 +499,7 @@ fn run_c15(cli: &Cli) -> (Value, Vec<Violation>) {
             {"raw": "+a\\n", "reference": format!("{:?}", ref_parse(b"+a\n"))},
         ],
         "exhaustive": true,
-        "bound": format!("values: nesting<={} width<={}; splits: all 1- and 2-cut sets of streams <=64 bytes (2 cuts up to {} bytes); raw: all strings of length <={} over {:?}", if thorough {3} else {2}, if thorough {3} else {2}, if thorough {48} else {24}, maxlen, String::from_utf8_lossy(alpha)),
+        "bound": format!("values: nesting<={} width<={}; splits: all 1- and 2-cut sets of streams <=64 bytes (2 cuts up to {} bytes; at the deepest level also all 3-cut sets of streams <= 22 bytes); raw: all strings of length <={} over {:?}", if thorough {3} else {2}, if thorough {3} else {2}, if thorough {48} else {24}, maxlen, String::from_utf8_lossy(alpha)),
     });
     (cov, viol)
 }
